@@ -25,7 +25,8 @@ Proof. exact fresh_service. Qed.
 Print Assumptions c20_fresh_service.
 
 (* Finish k occurs at most once; wherever it occurs the server of k has exited before (SrvExit k st), it
-   is called on k's own instance i with the assigner that instance returned and with the exit status st;
+   is called on k's own instance i with the assigner that instance returned and with the exit status st,
+   which is the status of the FIRST cause that stopped the server (the only SrvStop k _ of the trace);
    once Loop has returned, every started server has been finished exactly once. *)
 Theorem c20_finish_once_after_exit : forall tr s, (exists os, run (init true) tr = Some (s, os)) ->
   (forall k, count_occ label_eq_dec tr (Finish k) <= 1) /\
@@ -33,6 +34,7 @@ Theorem c20_finish_once_after_exit : forall tr s, (exists os, run (init true) tr
      exists s1 s2 c st i,
        reach t1 s1 /\ step s1 (Finish k) = Some (s2, [OFinish i i st]) /\
        get s1 k = Some c /\ c_phase c = PExited st /\ c_svc c = Some i /\ c_asg c = Some i /\ c_used c = Some i /\
+       In (SrvStop k st) t1 /\ (forall st', In (SrvStop k st') (t1 ++ Finish k :: t2) -> st' = st) /\
        In (SrvExit k st) t1 /\ In (StartSrv k) t1 /\ In (AssignerOk k) t1 /\ In (NewSvc k) t1 /\
        ~ In (Finish k) t1 /\ ~ In (Finish k) t2 /\ In (k, i, i, st) (finish_log s2)) /\
   (returned s = true -> forall k, In (StartSrv k) tr -> count_occ label_eq_dec tr (Finish k) = 1).
@@ -60,18 +62,30 @@ Theorem c20_returns_last : forall tr s, (exists os, run (init true) tr = Some (s
 Proof. exact returns_last. Qed.
 Print Assumptions c20_returns_last.
 
-(* After the context has ended: the Stop of every running server is done or enabled; a stopped server
+(* The inner server stops once, for the first cause that reaches it: a connection has at most one
+   SrvStop; it happens while the server runs, for a cause present at that moment (context ended / peer
+   closed / transport failed), no stop precedes it; the exit carries the status of that stop. *)
+Theorem c20_first_cause_wins : forall tr s, (exists os, run (init true) tr = Some (s, os)) ->
+  (forall k st st', In (SrvStop k st) tr -> In (SrvStop k st') tr -> st = st') /\
+  (forall k st t1 t2, tr = t1 ++ SrvStop k st :: t2 ->
+     exists s1 c, reach t1 s1 /\ get s1 k = Some c /\ c_phase c = PRunning /\ trigger (ctx_done s1) c st = true /\
+                  (forall st', ~ In (SrvStop k st') t1)) /\
+  (forall k st, In (SrvExit k st) tr -> In (SrvStop k st) tr).
+Proof. exact stop_first_cause. Qed.
+Print Assumptions c20_first_cause_wins.
+
+(* After the context has ended: the Stop of every server still running is enabled; a stopped server
    exits once its handlers have returned; an accepter honouring ctx yields a closing error (value nil);
    at quiescence only stopped servers with a handler still running remain, the accept loop is over, and
    if no handler is running Loop has returned. *)
 Theorem c20_ctx_stops_all : forall tr s, (exists os, run (init true) tr = Some (s, os)) -> ctx_done s = true ->
   (forall k c, get s k = Some c -> c_phase c = PRunning ->
-     c_stop c = true \/ (exists s', step s (StopSrv k) = Some (s', []) /\ In (StopSrv k) (enabled_internal s))) /\
-  (forall k c, get s k = Some c -> c_phase c = PRunning -> c_stop c = true -> c_busy c = 0 ->
-     exists s', step s (SrvExit k StStopped) = Some (s', [])) /\
+     exists s', step s (SrvStop k StStopped) = Some (s', []) /\ In (SrvStop k StStopped) (enabled_internal s)) /\
+  (forall k c st, get s k = Some c -> c_phase c = PStopping st -> c_busy c = 0 ->
+     exists s', step s (SrvExit k st) = Some (s', [])) /\
   (acc s = Accepting -> In (AcceptErr EClosing) (enabled_internal s) /\ retv_of EClosing = RNil) /\
   (quiescent s = true ->
-     (forall k c, get s k = Some c -> is_done (c_phase c) = true \/ (c_phase c = PRunning /\ c_stop c = true /\ c_busy c > 0)) /\
+     (forall k c, get s k = Some c -> is_done (c_phase c) = true \/ (exists st, c_phase c = PStopping st /\ c_busy c > 0)) /\
      acc s <> Accepting /\
      ((forall k c, get s k = Some c -> c_busy c = 0) -> returned s = true)).
 Proof. exact ctx_stops_all. Qed.
